@@ -112,6 +112,39 @@ CLAIMED = {
         technique="TLA+ refinement (LogAddImpl/LogConvImpl/LogTableImpl => LogAdd) checked by TLC with deviation switches and "
                   "negative controls; TLAPS proofs; exhaustive-over-d TLC trace validation of the real tables and sums",
         design="4/C19"),
+    "C05": dict(
+        text="For every grammar of the explored families (all one-rule grammars with <= 2 (thorough 3) leaves over {a, b, "
+             "<NULL>, <VOID>, <s>} with one level of ( ) [ ] * +, two-rule reference graphs, undefined references, grammars "
+             "without a public rule, seeded random grammars with <= 3 rules / 9 leaves / nesting 3, hand-written grammars; each "
+             "in up to 10 spellings) compiled for real through jsgf_build_fsg, jsgf_build_fsg_raw, re-compilation, "
+             "jsgf_read_string and decoder_set_jsgf_string, TLC recomputes the language (length <= 4) of the dumped FSG and the "
+             "denotation of the JSGF AST with the shared Regular operators: equal, or a refusal of a grammar that may be refused; "
+             "weights leaving every raw state sum to 1 within 110+n millionths and unique-token alternatives carry w_i/sum. TLC "
+             "also proves the transcribed compiler mechanism (parser actions, expand_rule/expand_rhs, rule stack, recursion "
+             "links, closure) has the property on 21k (quick) / 340k (thorough) enumerated grammars.",
+        note="Bounded language equivalence k=4; at most one public rule per grammar; no imports; quoted tokens accepted with or "
+             "without quotes; an empty-language rule may be refused or compiled to an empty grammar. Trusted: logmath_exp, "
+             "fsg_model_arcs, the harness dump, the Python renderer (text = AST; its analysis is cross-checked in TLA+). Eight "
+             "genuine defects found and repaired (fix: 40c15df, 24474a0, 5618e08, 42cd7d0, abd2df1).",
+        technique="TLA+ JSGF denotation (JsgfSem) vs transcribed compiler (JsgfCompileImpl) checked by TLC over enumerated "
+                  "grammars; every grammar compiled by the real library; TLC trace validation comparing languages",
+        design="4/C05"),
+    "C13": dict(
+        text="TLC proves for every finite-state grammar of the model (<= 4 states, <= 5-6 arcs, null chains and cycles, "
+             "duplicates, self-loops, unreachable states, weight upgrades between closures) that the closure loop as written, "
+             "silence addition and alternate addition of fsg_model.c compute exactly the grammars their definitions give, and "
+             "that those definitions keep the real-word language and the best log-prob of every sentence and are idempotent. "
+             "Every (grammar state, call) edge of the model's graph is executed on the real API, plus enumerated and random "
+             "grammars (<= 10 states, <= 30 arcs, lw 1.0 and 6.5, > 32 words) and grammars handed to a decoder; after every call "
+             "TLC validates the dumped arcs against the definitions, exact best log-probs for sentences <= 4 words, idempotence, "
+             "and write-then-read identity at the printed precision.",
+        note="Trusted: FsgAbs's definitions; hash-iteration order abstracted; pn computed with libm; an independent parser of "
+             "the file format in the harness; k=4 on traces, k=3 in models; weights <= 0, lw >= 1. Three genuine defects found "
+             "and repaired (fix: 1933693, 46ca299). Observations not claimed by C13: fsg_search.c never adds a self-loop for the "
+             "last filler word; JSGF weights are not scaled by lw.",
+        technique="TLA+ refinement (FsgModelImpl => FsgAbs) checked by TLC; state-graph edge tours replayed on the real API; TLC "
+                  "trace validation with named predicates",
+        design="4/C13"),
 }
 
 PENDING = "not built yet in this round (planned, see DESIGN.md section 4); no check is registered, so nothing is claimed"
